@@ -521,9 +521,9 @@ def run(ctx):
     if "unit" not in parts: uexe = None
     if "spawn" not in parts: sexe = None
     if uexe:
-        ex = list(ci_exhaustive(ctx.scale(3, 4), 6, range(3, 9)))
+        ex = list(ci_exhaustive(ctx.scale(3, 4), 6, range(0, 9)))
         ok = run_ci(ctx, uexe, ex, "exhaustive")
-        ctx.notes["childinit_exhaustive"] = f"stdio_count<={ctx.scale(3, 4)} x sources in -1..6 x error_fd in 3..8: {len(ex)} layouts"
+        ctx.notes["childinit_exhaustive"] = f"stdio_count<={ctx.scale(3, 4)} x sources in -1..6 x error_fd in 0..8: {len(ex)} layouts"
         rnd = [ci_random(rng, rng.choice([4, 8, 12, 14])) for _ in range(ctx.scale(3000, 60000))]
         ok = run_ci(ctx, uexe, rnd, "random") and ok
         ctx.notes["childinit_random"] = f"{len(rnd)} layouts, stdio_count up to 14, error_fd below and above stdio_count in " \
